@@ -21,7 +21,7 @@ SERVER_ENCRYPT = bytes.fromhex("CC98AE04E897EACA12DDC09342915357")  # server -> 
 SERVER_DECRYPT = bytes.fromhex("C2B3723CC6AED9B5343C53EE2F4367CE")  # client -> server
 DROP = 1024
 IC = "wrath_header::inner_crypto::InnerCrypto"
-FLOORS = {"entry-points": 36, "derivation": 3, "direction": 5, "prga": 4, "ksa": 4, "keystream": 3, "state-writers": 2}
+FLOORS = {"entry-points": 36, "derivation": 3, "direction": 5, "prga": 4, "ksa": 4, "keystream": 3, "state-writers": 2, "header-framing": 6}
 
 
 def prga_closure(ctx):
@@ -65,6 +65,12 @@ def check(ctx, rep):
     # for this expansion's functions
     from rules import c11
     c11.check(ctx, util.Refile(rep, "entry-points", None, lambda fn: fn.startswith("wrath_header::")))
+    # "the client's decrypter pairs with the server's encrypter": the two sides must agree on how
+    # many bytes of a server header go through the cipher - the 4 / 5 byte decision of the
+    # encoder and the flag test of the decoder (C10's rules, filed here as well): a header the
+    # encoder writes short and the decoder reads long moves one key stream a byte ahead for good
+    from rules import c10
+    c10.check(ctx, util.Refile(rep, "header-framing", {"encoder", "decoder", "roundtrip"}))
     fb = ctx.fb
     # ---------------- derivation
     fn = IC + "::new"
